@@ -6,26 +6,26 @@ import itertools
 
 TARGET = "puan"
 CONTRACTS = {
-    "Bounds.__init__": {"props": ["C03", "C06", "C07", "C08", "C11", "C12"], "group": "E0",
+    "Bounds.__init__": {"props": ["C01", "C03", "C04", "C05", "C06", "C07", "C08", "C10", "C11", "C12", "C20"], "group": "E0",
                         "why": "class invariant lower <= upper (axiom min(b.as_tuple()) = b.lower)"},
-    "Bounds.constant": {"props": ["C03", "C06", "C07", "C08"],
+    "Bounds.constant": {"props": ["C03", "C04", "C05", "C06", "C07", "C08"],
                         "why": "a bound is constant iff lower == upper, and then it is that value"},
-    "Bounds.as_tuple": {"props": ["C01", "C03", "C06", "C07", "C08", "C11", "C12", "C20"],
+    "Bounds.as_tuple": {"props": ["C01", "C03", "C04", "C05", "C06", "C07", "C08", "C10", "C11", "C12", "C20"],
                         "why": "(lower, upper) in that order - used as axiom by every kernel"},
     "Bounds.__eq__": {"props": ["C10", "C16", "C20"], "why": "bounds compare by (lower, upper)"},
     "Bounds.__hash__": {"props": ["C10"], "why": "hash consistent with __eq__ (feeds the set / hash keys of validation)"},
     "variable.__hash__": {"props": ["C10"], "why": "hash over id and bounds: equal definitions hash equally, so identical shared leaves are merged"},
-    "variable.__eq__": {"props": ["C10", "C18"], "why": "equality by id (its adequacy as de-duplication key is judged by E7)"},
+    "variable.__eq__": {"props": ["C10", "C14", "C18", "C20"], "why": "equality by id (its adequacy as de-duplication key is judged by E7)"},
     "variable.__lt__": {"props": ["C10"], "why": "ordering by id (sorted children / flatten)"},
-    "variable.__init__": {"props": ["C03", "C04", "C07", "C16"], "group": "E0",
+    "variable.__init__": {"props": ["C01", "C03", "C04", "C05", "C06", "C07", "C10", "C15", "C16", "C18", "C20"], "group": "E0",
                           "why": "int -> (v,v); Bounds kept; tuple -> Bounds(*t); default (0,1)"},
-    "variable.assume": {"props": ["C01", "C03", "C04", "C05", "C07"], "why": "H3: leaf takes fixed[id] if named, else itself"},
+    "variable.assume": {"props": ["C01", "C03", "C04", "C05", "C06", "C07"], "why": "H3: leaf takes fixed[id] if named, else itself"},
     "variable.evaluate": {"props": ["C01", "C03", "C04", "C05", "C06"], "why": "K7: int -> (v,v), tuple -> Bounds(*v), Bounds -> itself, absent -> own bounds"},
     "variable.evaluate_propositions": {"props": ["C03"], "why": "K6 for leaves"},
-    "variable.flatten": {"props": ["C01", "C03", "C10"], "why": "a leaf flattens to itself"},
+    "variable.flatten": {"props": ["C01", "C03", "C04", "C05", "C10", "C14", "C15"], "why": "a leaf flattens to itself"},
     "variable.support_vector_variable": {"props": ["C01", "C20"], "why": "support column: id 0, bounds (1,1)"},
     "variable.to_json": {"props": ["C16"], "why": "bounds omitted iff (0,1)"},
-    "variable.from_json": {"props": ["C16"], "why": "reader default (0,1) agrees with writer omission"},
+    "variable.from_json": {"props": ["C04", "C16"], "why": "reader default (0,1) agrees with writer omission"},
 }
 
 
